@@ -321,6 +321,25 @@ def run(report, p):
         else:
             r5.check(True, cf, a, "")
 
+    # ------------------------------------------------------------------ R17.6
+    r6 = report.rule(
+        "R17.6",
+        "the matching is exhaustive: inside the -dr matching loops no `break` (or `return`) is taken because two digests DIFFER - a pair that does not match only ends that pair, "
+        "every other missing path is still compared with the candidate",
+        1,
+    )
+    gcf = cfg_of(cf)
+    r6.instance(cf, cand_loops[0], f"matching loop over {cand}")
+    for n in ast.walk(cand_loops[0]):
+        if not isinstance(n, (ast.Break, ast.Return)):
+            continue
+        atoms = []
+        for t, l in gcf.control_deps(gcf.node_for(n), through_loops=False):
+            if t.kind == "test":
+                atoms += atomic_deps(t.ast, l)
+        differ = [(a, l) for a, l in atoms if "hash_string" in a and " == " in a and l == "F"]
+        r6.check(not differ, cf, n, f"the matching loop is left by `{'break' if isinstance(n, ast.Break) else 'return'}` when `{differ[0][0][:70] if differ else ''}` is false: after the first missing path that does not match, the remaining missing paths are never compared with this candidate - of several simultaneous renames at most one is detected, the others are reported missing", construct="matching loop left on a digest mismatch")
+
     report.not_decided += ["the pairing produced for concrete sets of simultaneous renames", "renames of folders that contain nested histories"]
 
 
